@@ -97,6 +97,13 @@ struct OpAdd { const Args& a;
   template <typename CT> std::string operator()(CT t) const { CT c = Ctor{a, 2}.make(t); return F(c + I(a[8])); } };
 struct OpSub { const Args& a;
   template <typename CT> std::string operator()(CT t) const { CT c = Ctor{a, 2}.make(t); return F(c - I(a[8])); } };
+// every spelling of "move by n": n + c, c += n, c -= n (the compound forms have bodies of their own)
+struct OpAddEq { const Args& a;
+  template <typename CT> std::string operator()(CT t) const { CT c = Ctor{a, 2}.make(t); c += I(a[8]); return F(c); } };
+struct OpSubEq { const Args& a;
+  template <typename CT> std::string operator()(CT t) const { CT c = Ctor{a, 2}.make(t); c -= I(a[8]); return F(c); } };
+struct OpAddL { const Args& a;
+  template <typename CT> std::string operator()(CT t) const { CT c = Ctor{a, 2}.make(t); return F(I(a[8]) + c); } };
 struct OpDiff { const Args& a;
   template <typename CT> std::string operator()(CT t) const {
     CT c1 = Ctor{a, 2}.make(t); CT c2 = Ctor{a, 8}.make(t);
@@ -141,6 +148,9 @@ static std::string run_case(const Args& a) {
   if (op == "ctor") return with_tag(static_cast<int>(I(a[1])), OpCtor{a});
   if (op == "add") return with_tag(static_cast<int>(I(a[1])), OpAdd{a});
   if (op == "sub") return with_tag(static_cast<int>(I(a[1])), OpSub{a});
+  if (op == "addeq") return with_tag(static_cast<int>(I(a[1])), OpAddEq{a});
+  if (op == "subeq") return with_tag(static_cast<int>(I(a[1])), OpSubEq{a});
+  if (op == "addl") return with_tag(static_cast<int>(I(a[1])), OpAddL{a});
   if (op == "diff") return with_tag(static_cast<int>(I(a[1])), OpDiff{a});
   if (op == "inc") return with_tag(static_cast<int>(I(a[1])), OpInc{a});
   if (op == "stream") return with_tag(static_cast<int>(I(a[1])), OpStream{a});
